@@ -11,6 +11,12 @@ functions under the property name in an `isinstance` / `except` / `raise` / cons
 code CONSTRUCTS to compare with (`elem != ValueError('generator already executing')`), every string / tuple constant
 that takes part in a comparison, `None`; a new special case in the code adds cases here.
 """
+try:  # the real server logs every shutdown request at WARNING: thousands of lines per run
+  from absl import logging as _absl_logging
+  _absl_logging.set_verbosity(_absl_logging.ERROR)
+except Exception:  # pragma: no cover
+  pass
+
 import ast
 import asyncio
 import builtins
